@@ -119,7 +119,7 @@ def evaluate_sweep(task, root):
         tag, val = engine.fork_call(_count_pass, (scn, croot))
         shutil.rmtree(croot, ignore_errors=True)
         return val if tag == 'ok' else []
-    variants = prof.sweep(rng, {'count_events': count_events})
+    variants = prof.sweep(rng, {'count_events': count_events, 'index': task['index']})
     results = []
     for j, scn in enumerate(variants):
         scn['seed'] = task['seed']
